@@ -43,7 +43,8 @@ impl Buffer {
             self.state.refill(drounds, &mut self.out);
             self.have += BLOCK as i8;
             // checked in seek()
-            self.len -= 1;
+            self.len = self.len.wrapping_sub(1);
+            self.fresh = false;
         }
         let mut have = self.have as usize;
         let have_ready = cmp::min(have, data.len());
